@@ -26,7 +26,7 @@ def main():
     if not os.path.isdir(WT):
         rc, out = sh(f"git -C /repo worktree add -q --detach {WT}")
         assert rc == 0, out
-    sh(f"git -C {WT} checkout -q --detach $(git -C /repo rev-parse HEAD) && git -C {WT} checkout -- . && git -C {WT} clean -fdq")
+    sh(f"git -C {WT} checkout -- . ; git -C {WT} clean -fdq ; git -C {WT} checkout -q --detach $(git -C /repo rev-parse HEAD)")
     res = {"seed": os.path.basename(sd), "property": meta["property"], "repo_head": sh("git -C /repo rev-parse HEAD")[1].strip()}
     rc, out = sh(f"PYTHONPATH=/repo /venv/bin/python {sd}/demo.py", cwd="/tmp")
     res["demo_unmodified"] = {"rc": rc, "tail": out[-300:]}
